@@ -148,6 +148,9 @@ func ensureIntrinsics(pkg *types.Package) {
 	f64 := types.Typ[types.Float64]
 	sc.Insert(types.NewFunc(token.NoPos, pkg, "isnan", types.NewSignatureType(nil, nil, nil, types.NewTuple(v("x", f64)), types.NewTuple(v("", boolT)), false)))
 	sc.Insert(types.NewFunc(token.NoPos, pkg, "isinf", types.NewSignatureType(nil, nil, nil, types.NewTuple(v("x", f64)), types.NewTuple(v("", boolT)), false)))
+	// hash64(s string) uint64: the 64-bit xxhash of the bytes of s (the uninterpreted function the
+	// xxhash model uses for Digest.Sum64)
+	sc.Insert(types.NewFunc(token.NoPos, pkg, "hash64", types.NewSignatureType(nil, nil, nil, types.NewTuple(v("s", types.Typ[types.String])), types.NewTuple(v("", types.Typ[types.Uint64])), false)))
 	// rangepos(): byte position of the string iterator of the loop the clause belongs to
 	sc.Insert(types.NewFunc(token.NoPos, pkg, "rangepos", types.NewSignatureType(nil, nil, nil, nil, types.NewTuple(v("", intT)), false)))
 	// backedge(), returned()
@@ -849,6 +852,8 @@ func (e *SpecEnv) intrinsic(name string, n *ast.CallExpr, targs []types.Type) Va
 		return FOp("fp.isNaN", e.eval(n.Args[0]).(*Term))
 	case "isinf":
 		return FOp("fp.isInfinite", e.eval(n.Args[0]).(*Term))
+	case "hash64":
+		return UF("xxhash.sum64", SInt, e.eval(n.Args[0]).(*Term))
 	case "rangepos":
 		if e.frame == nil || e.loop == nil {
 			e.fail("rangepos() outside a loop clause")
